@@ -493,7 +493,18 @@ def stmt_assigns(st: ast.stmt) -> list[tuple[ast.AST, Optional[ast.AST]]]:
 def definitions(fn: ast.AST, name: str, nested: bool = False) -> list[ast.AST]:
     """All value expressions assigned to local `name` in fn (flow-insensitive).  Tuple
     destructuring yields ('tuple', value, index) entries wrapped in ast.Subscript-like tuples."""
+    cache = getattr(fn, "_qv_defs", None)
+    if cache is None:
+        cache = {}
+        try:
+            fn._qv_defs = cache  # type: ignore[attr-defined]
+        except Exception:
+            pass
+    ck = (name, nested)
+    if ck in cache:
+        return cache[ck]
     out: list = []
+    cache[ck] = out
     it = ast.walk(fn) if nested else walk_no_nested_defs(fn)
     for n in it:
         if isinstance(n, (ast.Assign, ast.AnnAssign)):
